@@ -17,7 +17,7 @@ func init() {
 }
 
 func checkC03(c *Ctx) {
-	r031(c)
+	r031(c, "R03.1 drain-protocol-order")
 	r032(c)
 	r033(c)
 	r034(c)
@@ -31,8 +31,7 @@ func isLoadOfGlobal(v ssa.Value, g *ssa.Global) bool {
 }
 
 // R03.1 drain protocol order.
-func r031(c *Ctx) {
-	const rule = "R03.1 drain-protocol-order"
+func r031(c *Ctx, rule string) {
 	c.floor(rule, 9)
 	fn := c.method("Target", "Drain")
 	upd := c.method("Target", "updateState")
@@ -136,9 +135,20 @@ func r031(c *Ctx) {
 			if !loopHeaderDominates(h.in, sel) {
 				return false
 			}
+			// the hijack pass is finished when waiting starts: the wait can never be followed by a hijack-cancel
+			if _, back := reach(fn, sel, func(in ssa.Instruction) bool { return in == h.in }, nil); back {
+				return false
+			}
 		}
 		return true
-	}(), true, "upgraded (hijacked) connections must be cancelled in a loop that completes before the wait begins")
+	}(), true, "upgraded (hijacked) connections must be cancelled in a loop that completes before the wait begins (not interleaved with the per-request wait)")
+	// hijacked is set only by an actual hijack
+	for _, w := range c.writesOfField(hijackedF) {
+		o := fname(outer(w.fn))
+		v, isConst := constBool(w.val)
+		ok := o == "(*server.targetResponseWriter).Hijack" || (isConst && !v)
+		c.ob(rule, "write inflightRequest.hijacked <- "+o, w.instr.Pos(), ok, false, "the hijacked flag (which makes Drain cut a request off at once) may be set only by targetResponseWriter.Hijack")
+	}
 	if c.ob(rule, "Drain/has-unconditional-cancel-all", fn.Pos(), len(all) >= 1, true, "there must be a loop cancelling every snapshot entry unconditionally") {
 		hdr := loopNext(all[0].in)
 		ok := hdr != nil
@@ -351,14 +361,22 @@ func r033(c *Ctx) {
 			}
 			if f, _, ok := fieldLoad(cs.common().Args[0]); ok {
 				to := resolve(cs.common().Args[1])
-				if to == ssa.Value(sdrain.Params[1]) {
+				// the only admissible guard is a nil test of that same slot
+				guardsOK := true
+				for _, ce := range dominatingConds(cs.instr.Block()) {
+					cm, ok := asCmp(ce.cond, ce.taken)
+					if !ok || cm.op != token.NEQ || !((isLoadOfField(cm.x, f) && isNilConst(cm.y)) || (isLoadOfField(cm.y, f) && isNilConst(cm.x))) {
+						guardsOK = false
+					}
+				}
+				if to == ssa.Value(sdrain.Params[1]) && guardsOK {
 					drained[f] = true
 				}
 			}
 		}
 	}
 	c.ob(rule, "Service.Drain/drains-active", sdrain.Pos(), drained[activeF], true, "the active slot must be drained with the timeout parameter")
-	c.ob(rule, "Service.Drain/drains-rollout", sdrain.Pos(), drained[rolloutF], true, "the rollout slot must be drained with the timeout parameter")
+	c.ob(rule, "Service.Drain/drains-rollout", sdrain.Pos(), drained[rolloutF], true, "the rollout slot must be drained with the timeout parameter whenever it is non-nil (no other condition: rollout targets can hold in-flight requests after the split was stopped)")
 	// PerformConcurrently joins
 	c.joinShape(rule, "PerformConcurrently", pc, func(v ssa.Value) bool { return v == ssa.Value(pc.Params[0]) }, "fns",
 		func(cl *ssa.Function) bool {
